@@ -119,44 +119,103 @@ pub fn p_arith_exact_mod_2_32(a: u32, d: u32) {
     vchk!("(t - d).value == (a - d) mod 2^32          [Sub<u32>]", (t - d).value, spec_sub(a, d));
     vchk!("(t - td).value == (a - d) mod 2^32         [Sub<RtmpTimestamp>]", (t - td).value, spec_sub(a, d));
 }
-pub fn p_inverse_laws(a: u32, d: u32) {
+pub fn p_inverse_laws_u32_operand(a: u32, d: u32) {
     let t = RtmpTimestamp::new(a);
-    let td = RtmpTimestamp::new(d);
     vchk!("(t + d) - d == t      [u32 operand]", ((t + d) - d).value, a);
     vchk!("(t - d) + d == t      [u32 operand]", ((t - d) + d).value, a);
+}
+pub fn p_inverse_laws_timestamp_operand(a: u32, d: u32) {
+    let t = RtmpTimestamp::new(a);
+    let td = RtmpTimestamp::new(d);
     vchk!("(t + td) - td == t    [RtmpTimestamp operand]", ((t + td) - td).value, a);
     vchk!("(t - td) + td == t    [RtmpTimestamp operand]", ((t - td) + td).value, a);
+}
+pub fn p_inverse_laws_mixed_operands(a: u32, d: u32) {
+    let t = RtmpTimestamp::new(a);
+    let td = RtmpTimestamp::new(d);
     vchk!("(t + d) - td == t     [mixed operands]", ((t + d) - td).value, a);
     vchk!("(t - td) + d == t     [mixed operands]", ((t - td) + d).value, a);
-    vchk!("(t + d) - t == d      [difference recovers the distance]", ((t + d) - t).value, d);
+    vchk!("(t + d) - t == d      [the difference recovers the distance]", ((t + d) - t).value, d);
 }
 
-// ---- ordering (on the REAL compare: Kani 0.68 cannot stub it, std::cmp::Ordering has no kani::Arbitrary)
+// ---- ordering, on the REAL compare (Kani 0.68 cannot stub it: std::cmp::Ordering has no kani::Arbitrary).
+//      Each harness makes at most four calls into compare (CBMC's cost grows faster than linearly with the number of
+//      calls), states every result against the oracle first ("== oracle") and then the law itself.
 pub fn p_order_agrees_with_equality(a: u32, b: u32) {
     let ta = RtmpTimestamp::new(a);
     let tb = RtmpTimestamp::new(b);
-    vchk!("ta == tb  <=>  a == b", ta == tb, a == b);
+    let eq = ta == tb;
+    vchk!("ta == tb  <=>  a == b", eq, a == b);
     vchk!("ta != tb  <=>  a != b", ta != tb, a != b);
-    vchk!("ta.cmp(&tb) == Equal  <=>  ta == tb", ta.cmp(&tb) == Ordering::Equal, ta == tb);
-    vchk!("ta.partial_cmp(&tb) == Some(ta.cmp(&tb))", ta.partial_cmp(&tb), Some(ta.cmp(&tb)));
-    vchk!("ta <= tb  <=>  ta < tb || ta == tb", ta <= tb, ta < tb || ta == tb);
-    vchk!("ta >= tb  <=>  ta > tb || ta == tb", ta >= tb, ta > tb || ta == tb);
-    vchk!("never (ta < tb && ta == tb)", ta < tb && ta == tb, false);
-    vchk!("never (ta > tb && ta == tb)", ta > tb && ta == tb, false);
+    let c = ta.cmp(&tb);
+    vchk!("ta.cmp(&tb) == oracle", c, spec_cmp(a, b));
+    vchk!("ta.cmp(&tb) == Equal  <=>  ta == tb", c == Ordering::Equal, eq);
+    let pc = ta.partial_cmp(&tb);
+    vchk!("ta.partial_cmp(&tb) == Some(ta.cmp(&tb))", pc, Some(c));
 }
-pub fn p_order_antisymmetric(a: u32, b: u32) {
+pub fn p_order_lt_le_consistent_with_equality(a: u32, b: u32) {
     let ta = RtmpTimestamp::new(a);
     let tb = RtmpTimestamp::new(b);
-    vchk!("ta.cmp(&tb) == tb.cmp(&ta).reverse()", ta.cmp(&tb), tb.cmp(&ta).reverse());
-    vchk!("ta < tb  <=>  tb > ta", ta < tb, tb > ta);
-    vchk!("never (ta < tb && tb < ta)", ta < tb && tb < ta, false);
-    vchk!("never (ta > tb && tb > ta)", ta > tb && tb > ta, false);
-    vchk!("ta <= tb && tb <= ta  ==>  ta == tb", !(ta <= tb && tb <= ta) || ta == tb, true);
+    let s = spec_cmp(a, b);
+    let eq = ta == tb;
+    let lt = ta < tb;
+    vchk!("(ta < tb) == oracle", lt, s == Ordering::Less);
+    let le = ta <= tb;
+    vchk!("(ta <= tb) == oracle", le, s != Ordering::Greater);
+    vchk!("ta <= tb  <=>  ta < tb || ta == tb", le, lt || eq);
+    vchk!("never (ta < tb && ta == tb)", lt && eq, false);
 }
-/// `later` exactly for 1 <= d <= 2^31-1, a+d versus a, for every a (so also across the wrap).
-/// The slice d == 2^31 is NOT covered here: the statement's obligation on it is the separate harness
-/// known_K_C20_antipodal_pair_must_be_unordered (fails: known finding) and today's behaviour on it is pinned
-/// by pin_antipodal_behaviour_today.  Every other (a, d) in u32 x u32 is covered.
+pub fn p_order_gt_ge_consistent_with_equality(a: u32, b: u32) {
+    let ta = RtmpTimestamp::new(a);
+    let tb = RtmpTimestamp::new(b);
+    let s = spec_cmp(a, b);
+    let eq = ta == tb;
+    let gt = ta > tb;
+    vchk!("(ta > tb) == oracle", gt, s == Ordering::Greater);
+    let ge = ta >= tb;
+    vchk!("(ta >= tb) == oracle", ge, s != Ordering::Less);
+    vchk!("ta >= tb  <=>  ta > tb || ta == tb", ge, gt || eq);
+    vchk!("never (ta > tb && ta == tb)", gt && eq, false);
+}
+pub fn p_order_antisymmetric_cmp(a: u32, b: u32) {
+    let ta = RtmpTimestamp::new(a);
+    let tb = RtmpTimestamp::new(b);
+    let ab = ta.cmp(&tb);
+    vchk!("ta.cmp(&tb) == oracle(a, b)", ab, spec_cmp(a, b));
+    let ba = tb.cmp(&ta);
+    vchk!("tb.cmp(&ta) == oracle(b, a)", ba, spec_cmp(b, a));
+    vchk!("ta.cmp(&tb) == tb.cmp(&ta).reverse()", ab, ba.reverse());
+}
+pub fn p_order_antisymmetric_lt_gt(a: u32, b: u32) {
+    let ta = RtmpTimestamp::new(a);
+    let tb = RtmpTimestamp::new(b);
+    let lt_ab = ta < tb;
+    vchk!("(ta < tb) == oracle", lt_ab, spec_cmp(a, b) == Ordering::Less);
+    let gt_ba = tb > ta;
+    vchk!("(tb > ta) == oracle", gt_ba, spec_cmp(b, a) == Ordering::Greater);
+    let lt_ba = tb < ta;
+    vchk!("(tb < ta) == oracle", lt_ba, spec_cmp(b, a) == Ordering::Less);
+    let gt_ab = ta > tb;
+    vchk!("(ta > tb) == oracle", gt_ab, spec_cmp(a, b) == Ordering::Greater);
+    vchk!("ta < tb  <=>  tb > ta", lt_ab, gt_ba);
+    vchk!("ta > tb  <=>  tb < ta", gt_ab, lt_ba);
+    vchk!("never (ta < tb && tb < ta)", lt_ab && lt_ba, false);
+    vchk!("never (ta > tb && tb > ta)", gt_ab && gt_ba, false);
+}
+pub fn p_order_antisymmetric_le(a: u32, b: u32) {
+    let ta = RtmpTimestamp::new(a);
+    let tb = RtmpTimestamp::new(b);
+    let le_ab = ta <= tb;
+    vchk!("(ta <= tb) == oracle", le_ab, spec_cmp(a, b) != Ordering::Greater);
+    let le_ba = tb <= ta;
+    vchk!("(tb <= ta) == oracle", le_ba, spec_cmp(b, a) != Ordering::Greater);
+    vchk!("ta <= tb && tb <= ta  ==>  ta == tb", !(le_ab && le_ba) || ta == tb, true);
+}
+
+// `later` exactly for 1 <= d <= 2^31-1, a+d versus a, for every a (so also across the wrap).
+// The slice d == 2^31 is NOT covered by the three harnesses below: the statement's obligation on it is the separate
+// harness known_K_C20_antipodal_pair_must_be_unordered (fails: known finding) and today's behaviour on it is pinned by
+// pin_antipodal_behaviour_today.  Every other (a, d) in u32 x u32 is covered.
 pub fn p_later_exactly_within_window(a: u32, d: u32) {
     if d as u64 == TWO_POW_31 {
         return;
@@ -164,34 +223,108 @@ pub fn p_later_exactly_within_window(a: u32, d: u32) {
     let ta = RtmpTimestamp::new(a);
     let tb = ta + d;
     let in_window = 1 <= d && (d as u64) <= TWO_POW_31 - 1;
-    let behind = (d as u64) > TWO_POW_31; // then a is 2^32 - d in 1..=2^31-1 ahead of a+d
+    vchk!("the window test 1 <= d <= 2^31-1 is the oracle's `later(a + d, a)`", in_window, spec_later(spec_add(a, d), a));
     vchk!("(a + d) > a   <=>  1 <= d <= 2^31-1", tb > ta, in_window);
     vchk!("a < (a + d)   <=>  1 <= d <= 2^31-1", ta < tb, in_window);
+}
+pub fn p_earlier_exactly_beyond_window(a: u32, d: u32) {
+    if d as u64 == TWO_POW_31 {
+        return;
+    }
+    let ta = RtmpTimestamp::new(a);
+    let tb = ta + d;
+    let behind = (d as u64) > TWO_POW_31; // then a is 2^32 - d, i.e. 1..=2^31-1, ahead of a + d
+    vchk!("the test d > 2^31 is the oracle's `later(a, a + d)`", behind, spec_later(a, spec_add(a, d)));
     vchk!("(a + d) < a   <=>  d > 2^31   (a is then 2^32-d in 1..=2^31-1 ahead)", tb < ta, behind);
     vchk!("a > (a + d)   <=>  d > 2^31", ta > tb, behind);
+}
+pub fn p_window_order_is_the_statements(a: u32, d: u32) {
+    if d as u64 == TWO_POW_31 {
+        return;
+    }
+    let ta = RtmpTimestamp::new(a);
+    let tb = ta + d;
     vchk!("(a + d) == a  <=>  d == 0", tb == ta, d == 0);
     vchk!("(a + d).cmp(a) is the order the statement determines", Some(tb.cmp(&ta)), spec_order(spec_add(a, d), a));
-    vchk!("the window test agrees with the oracle's `later`", in_window, spec_later(spec_add(a, d), a));
+    vchk!("a.cmp(a + d) is the order the statement determines", Some(ta.cmp(&tb)), spec_order(a, spec_add(a, d)));
 }
 
-// ---- comparisons against plain integers agree with comparisons between timestamps (both directions)
-pub fn p_u32_operand_impls_agree(a: u32, b: u32) {
+// ---- comparisons against plain integers agree with comparisons between timestamps (both directions);
+//      one harness per operator: timestamp/timestamp, timestamp/u32, u32/timestamp.
+pub fn p_u32_operand_impls_agree_partial_cmp(a: u32, b: u32) {
     let ta = RtmpTimestamp::new(a);
     let tb = RtmpTimestamp::new(b);
-    vchk!("ta.partial_cmp(&b) == ta.partial_cmp(&tb)      [PartialOrd<u32> for RtmpTimestamp]", ta.partial_cmp(&b), ta.partial_cmp(&tb));
-    vchk!("a.partial_cmp(&tb) == ta.partial_cmp(&tb)      [PartialOrd<RtmpTimestamp> for u32]", a.partial_cmp(&tb), ta.partial_cmp(&tb));
-    vchk!("(ta < b) == (ta < tb)", ta < b, ta < tb);
-    vchk!("(ta <= b) == (ta <= tb)", ta <= b, ta <= tb);
-    vchk!("(ta > b) == (ta > tb)", ta > b, ta > tb);
-    vchk!("(ta >= b) == (ta >= tb)", ta >= b, ta >= tb);
-    vchk!("(a < tb) == (ta < tb)", a < tb, ta < tb);
-    vchk!("(a <= tb) == (ta <= tb)", a <= tb, ta <= tb);
-    vchk!("(a > tb) == (ta > tb)", a > tb, ta > tb);
-    vchk!("(a >= tb) == (ta >= tb)", a >= tb, ta >= tb);
-    vchk!("(ta == b) == (ta == tb)                        [PartialEq<u32> for RtmpTimestamp]", ta == b, ta == tb);
+    let s = Some(spec_cmp(a, b));
+    let tt = ta.partial_cmp(&tb);
+    vchk!("ta.partial_cmp(&tb) == oracle", tt, s);
+    let tu = ta.partial_cmp(&b);
+    vchk!("ta.partial_cmp(&b) == oracle                    [PartialOrd<u32> for RtmpTimestamp]", tu, s);
+    let ut = a.partial_cmp(&tb);
+    vchk!("a.partial_cmp(&tb) == oracle                    [PartialOrd<RtmpTimestamp> for u32]", ut, s);
+    vchk!("ta.partial_cmp(&b) == ta.partial_cmp(&tb)", tu, tt);
+    vchk!("a.partial_cmp(&tb) == ta.partial_cmp(&tb)", ut, tt);
+}
+pub fn p_u32_operand_impls_agree_lt(a: u32, b: u32) {
+    let ta = RtmpTimestamp::new(a);
+    let tb = RtmpTimestamp::new(b);
+    let s = spec_cmp(a, b) == Ordering::Less;
+    let tt = ta < tb;
+    vchk!("(ta < tb) == oracle", tt, s);
+    let tu = ta < b;
+    vchk!("(ta < b) == oracle", tu, s);
+    let ut = a < tb;
+    vchk!("(a < tb) == oracle", ut, s);
+    vchk!("(ta < b) == (ta < tb)", tu, tt);
+    vchk!("(a < tb) == (ta < tb)", ut, tt);
+}
+pub fn p_u32_operand_impls_agree_le(a: u32, b: u32) {
+    let ta = RtmpTimestamp::new(a);
+    let tb = RtmpTimestamp::new(b);
+    let s = spec_cmp(a, b) != Ordering::Greater;
+    let tt = ta <= tb;
+    vchk!("(ta <= tb) == oracle", tt, s);
+    let tu = ta <= b;
+    vchk!("(ta <= b) == oracle", tu, s);
+    let ut = a <= tb;
+    vchk!("(a <= tb) == oracle", ut, s);
+    vchk!("(ta <= b) == (ta <= tb)", tu, tt);
+    vchk!("(a <= tb) == (ta <= tb)", ut, tt);
+}
+pub fn p_u32_operand_impls_agree_gt(a: u32, b: u32) {
+    let ta = RtmpTimestamp::new(a);
+    let tb = RtmpTimestamp::new(b);
+    let s = spec_cmp(a, b) == Ordering::Greater;
+    let tt = ta > tb;
+    vchk!("(ta > tb) == oracle", tt, s);
+    let tu = ta > b;
+    vchk!("(ta > b) == oracle", tu, s);
+    let ut = a > tb;
+    vchk!("(a > tb) == oracle", ut, s);
+    vchk!("(ta > b) == (ta > tb)", tu, tt);
+    vchk!("(a > tb) == (ta > tb)", ut, tt);
+}
+pub fn p_u32_operand_impls_agree_ge(a: u32, b: u32) {
+    let ta = RtmpTimestamp::new(a);
+    let tb = RtmpTimestamp::new(b);
+    let s = spec_cmp(a, b) != Ordering::Less;
+    let tt = ta >= tb;
+    vchk!("(ta >= tb) == oracle", tt, s);
+    let tu = ta >= b;
+    vchk!("(ta >= b) == oracle", tu, s);
+    let ut = a >= tb;
+    vchk!("(a >= tb) == oracle", ut, s);
+    vchk!("(ta >= b) == (ta >= tb)", tu, tt);
+    vchk!("(a >= tb) == (ta >= tb)", ut, tt);
+}
+pub fn p_u32_operand_impls_agree_eq_ne(a: u32, b: u32) {
+    let ta = RtmpTimestamp::new(a);
+    let tb = RtmpTimestamp::new(b);
+    vchk!("(ta == b) == (ta == tb)                         [PartialEq<u32> for RtmpTimestamp]", ta == b, ta == tb);
     vchk!("(ta != b) == (ta != tb)", ta != b, ta != tb);
-    vchk!("(a == tb) == (ta == tb)                        [PartialEq<RtmpTimestamp> for u32]", a == tb, ta == tb);
+    vchk!("(a == tb) == (ta == tb)                         [PartialEq<RtmpTimestamp> for u32]", a == tb, ta == tb);
     vchk!("(a != tb) == (ta != tb)", a != tb, ta != tb);
+    vchk!("(ta == b) == (a == b)", ta == b, a == b);
+    vchk!("(a == tb) == (a == b)", a == tb, a == b);
 }
 
 pub fn p_new_and_set(a: u32, b: u32) {
@@ -232,13 +365,19 @@ pub fn p_pin_antipodal_behaviour_today(a: u32) {
     let want = pinned_antipodal(a, b);
     vchk!("PIN t + 2^31 lands on the antipode", (ta + 2147483648u32).value, b);
     vchk!("PIN the antipode is not equal", ta == tb, false);
-    vchk!("PIN ta.cmp(&tb): numerically larger value is the earlier one", ta.cmp(&tb), want);
+    vchk!("PIN ta.cmp(&tb): the numerically larger value is the earlier one", ta.cmp(&tb), want);
     vchk!("PIN tb.cmp(&ta) is the reverse", tb.cmp(&ta), want.reverse());
+    vchk!("PIN ta < tb  <=>  a > b", ta < tb, a > b);
+    vchk!("PIN ta > tb  <=>  a < b", ta > tb, a < b);
+}
+pub fn p_pin_antipodal_behaviour_today_u32_operands(a: u32) {
+    let b = spec_add(a, 2147483648u32);
+    let ta = RtmpTimestamp::new(a);
+    let tb = RtmpTimestamp::new(b);
+    let want = pinned_antipodal(a, b);
     vchk!("PIN ta.partial_cmp(&tb)", ta.partial_cmp(&tb), Some(want));
     vchk!("PIN ta.partial_cmp(&b)   [u32 operand]", ta.partial_cmp(&b), Some(want));
     vchk!("PIN a.partial_cmp(&tb)   [u32 receiver]", a.partial_cmp(&tb), Some(want));
-    vchk!("PIN ta < tb  <=>  a > b", ta < tb, a > b);
-    vchk!("PIN ta > tb  <=>  a < b", ta > tb, a < b);
 }
 
 // ---- vacuity probes: deliberately FALSE claims that Kani must refute on every run
